@@ -72,10 +72,28 @@ fn steps() -> &'static (Mutex<Steps>, Condvar) {
     })
 }
 
+static TRACE_FILE: OnceLock<Option<Mutex<std::fs::File>>> = OnceLock::new();
+
+/// When `SNELDB_VERIF_TRACE` names a file every label is also appended to it (one line per
+/// label, written before the step point can abort), so a trace survives a crash.
+fn trace_line(line: &str) {
+    use std::io::Write;
+    let f = TRACE_FILE.get_or_init(|| {
+        std::env::var("SNELDB_VERIF_TRACE").ok().and_then(|p| {
+            std::fs::OpenOptions::new().create(true).append(true).open(p).ok().map(Mutex::new)
+        })
+    });
+    if let Some(f) = f {
+        let mut f = f.lock().unwrap();
+        let _ = f.write_all(format!("{line}\n").as_bytes());
+    }
+}
+
 /// A labelled step point.
 pub fn vp(name: &str) {
     let (m, cv) = steps();
     let mut s = m.lock().unwrap();
+    trace_line(name);
     let n = {
         let e = s.hits.entry(name.to_string()).or_insert(0);
         *e += 1;
@@ -99,6 +117,7 @@ pub fn vpd(name: &str, detail: &str) {
     {
         let (m, _) = steps();
         m.lock().unwrap().trace.push(format!("{name}={detail}"));
+        trace_line(&format!("{name}={detail}"));
     }
     vp(name);
 }
